@@ -3,9 +3,9 @@ CONSTANTS
   Slots = {"s1", "s2"}
   MaxCalls = 5
   CopyLists = TRUE
-  LocalClusters = FALSE
+  LocalClusters = TRUE
   RefreshParams = TRUE
-  OwnScalers = TRUE
+  OwnScalers = FALSE
   CopyOnHandOut = TRUE
   KeyedMemo = TRUE
   RejectKeeps = TRUE
